@@ -88,7 +88,7 @@ def put_length_bound(prog: Program, fn: FuncInfo) -> Optional[int]:
                     t = tl(p.args[0]) if p.args else None
                     if t is None:
                         return None
-                    d = strip(simplify(oc(t), facts))
+                    d = strip(oc(simplify(oc(t), facts)))
                     if not (d[0] == "slice" and d[2] is None and d[3] is not None and d[4] is None):
                         return None
                     V, N = strip(d[1]), d[3]
